@@ -210,6 +210,8 @@ fn reg_clone(size: usize, src: &[u8]) -> u16 {
     }
     let sid = read_id(src);
     let ok = check_canary(src);
+    // bulk mode (huge vectors): a clone keeps the identity of its source, only the call is counted
+    if with_reg(|r| if r.untracked { r.clones += 1; true } else { false }) { return sid; }
     let id = fresh_id();
     with_reg(|r| {
         if !ok || (sid as usize) >= MAX_IDS || r.state[sid as usize] == IdState::Never {
